@@ -350,3 +350,45 @@ def transport_len_rules(ctx, rule):
     ctx.ob(rule, t, 'frame = header + stream bytes', okp,
            'the queued frame is not <header> + %s.getvalue()' % stream,
            'the bytes after the header must be exactly the measured body')
+
+
+def complete_write_rules(ctx, rule):
+  """Socket wrappers: write(buff) hands the whole buffer to the kernel -- sendall, or a send loop that
+  advances by the returned count until everything went out."""
+  from .paths import call_attr
+  prog = ctx.prog
+  why = ('socket.send may accept only part of the buffer; a frame whose tail is never written leaves the peer with a length prefix '
+         'announcing more bytes than arrive')
+  n = 0
+  for rel, qn in (('scales/scales_socket.py', 'ScalesSocket.write'), ('scales/varz.py', 'VarzSocketWrapper.write')):
+    f = prog.func(rel, qn)
+    buf = f.params[1]
+    sends = [c for c in walk_no_nested(f.node) if isinstance(c, ast.Call) and call_attr(c) in ('send', 'sendall') and U(c.func.value).split('.')[-1] == 'handle']
+    deleg = [c for c in walk_no_nested(f.node) if isinstance(c, ast.Call) and call_attr(c) == 'write' and [U(a) for a in c.args] == [buf]]
+    ctx.ob(rule, f, 'write reaches the socket', len(sends) + len(deleg) >= 1, 'no send/sendall/write of the buffer', why)
+    for c in sends:
+      n += 1
+      if call_attr(c) == 'sendall':
+        ctx.ob(rule, f, 'sendall(whole buffer)', [U(a) for a in c.args] == [buf] and not _rebinds(f, buf), 'sendall argument is %s' % [U(a) for a in c.args], why)
+        continue
+      loop = [w for w in walk_no_nested(f.node) if isinstance(w, ast.While) and any(x is c for x in ast.walk(w))]
+      res = [st for st in walk_no_nested(f.node) if isinstance(st, ast.Assign) and st.value is c and isinstance(st.targets[0], ast.Name)]
+      ok = False
+      what = 'send() outside a loop or its result unused'
+      if len(loop) == 1 and len(res) == 1:
+        p = res[0].targets[0].id
+        w = loop[0]
+        cnt_names = [x.id for x in ast.walk(w.test) if isinstance(x, ast.Name)]
+        adv_cnt = [st for st in ast.walk(w) if isinstance(st, ast.AugAssign) and isinstance(st.op, ast.Add) and U(st.target) in cnt_names and U(st.value) == p]
+        arg = U(c.args[0]).replace(' ', '') if c.args else ''
+        adv_buf = [st for st in ast.walk(w) if isinstance(st, ast.Assign) and U(st.targets[0]) == arg and U(st.value).replace(' ', '') == '%s[%s:]' % (arg, p)]
+        sliced = adv_cnt and arg in ['%s[%s:]' % (buf, U(a.target)) for a in adv_cnt]
+        ok = bool(adv_cnt) and (bool(adv_buf) or bool(sliced))
+        what = 'send loop: counter advanced %s, buffer advanced %s' % (bool(adv_cnt), bool(adv_buf) or bool(sliced))
+      ctx.ob(rule, f, 'send loop advances by the returned count until done', ok, what, why)
+  ctx.floor(rule, 'socket send sites', n, 2)
+
+
+def _rebinds(f, name):
+  return any(isinstance(st, (ast.Assign, ast.AugAssign)) and any(isinstance(t, ast.Name) and t.id == name for t in (st.targets if isinstance(st, ast.Assign) else [st.target]))
+             for st in walk_no_nested(f.node))
